@@ -336,7 +336,7 @@ def run(ctx, only_cases=None):
             ctx.violation("model-mismatch", "Corr/C09.check: the Routing model and the real RoutingTable (%s) disagree on a history on which "
                           "the Go-side predicate holds; the theorems of Properties/C09.v no longer speak about this code "
                           "(per-op [matched ambiguous lo hi] = %s)" % (cases[i]["backend"], p[0]),
-                          {"case": trim(cases[i], 4000), "observed": outs[i]["obs"]}, found_input=False)
+                          {"case": cases[i], "observed": outs[i]["obs"]}, found_input=False)
 
     # reported streams: invalid UTF-8 and the probes (never judged)
     inv_out = vlib.run_harness(binary, invalid, timeout=600) if invalid else []
